@@ -3,6 +3,8 @@ import Spine.ApprovalFrame
 import Spine.ApprovalRefine
 import Spine.ApprovalConn
 import Spine.ApprovalWire
+import Spine.ApprovalEquiv
+import Spine.ApprovalSingle
 /-!
 # C12 — write approval: unanimous, timely, exactly one outcome per write
 
@@ -25,7 +27,10 @@ Status of the clauses of the statement
   `c12_exactly_one_outcome`); REFUTED for the code as written by two kernel-checked schedules
   (`c12_at_most_one_outcome_refuted_timeout`, `c12_at_most_one_outcome_refuted_verdicts`); PARTIAL for the code as
   written (`c12_partial`: single callback, or tally repaired, and no verdict between lookup and commit while the
-  write's timer is no longer armed ⇒ the run *is* the repaired member's run).
+  write's timer is no longer armed ⇒ the run *is* the repaired member's run); second deepening round:
+  `c12_partial_one_write_at_a_time` — the code as written with ANY number of callbacks, when a write arrives only
+  while no other write is armed (and no stale verdict): same outcomes as the repaired member (a simulation — the
+  tally maps differ).
 * "applied iff every callback approves before the timeout", "independently of any other pending write":
   REFUTED for the code as written (`c12_applied_iff_unanimous_refuted`: two fully approved writes both time out);
   PROVED for the repaired member over all event lists as a refinement: the model's outcomes of every write are those
@@ -39,7 +44,10 @@ Status of the clauses of the statement
 * across connections: see the section "across connections" below — the all-schedule theorems include the event
   `drop` on write instances (`c12_nothing_after_disconnect` is new); the counter-keyed family `Spine.ApprE` carries
   the two defects of the code there (`c12_reused_counter_refuted`, `c12_old_verdict_after_reuse_refuted`) and is
-  tied to the instance-keyed model by the driver's side-by-side run (validated, not proved).
+  tied to the instance-keyed model by a PROOF (second deepening round, `Spine/ApprovalEquiv.lean`): for the fully
+  repaired member the two models have the same outcomes on every event list, under any injective naming of the
+  instances (`c12_counter_keyed_equals_instance_keyed`), hence the all-schedule clauses hold of the model that keys
+  its maps as the code does (`c12_at_most_one_outcome_counter_keyed`); the driver's side-by-side run remains.
 * real time ("before the approval timeout" as wall-clock time, that `time.AfterFunc` fires after the duration and
   `Stop` reports truthfully): assumption A-time; the harness measures it, the model quantifies over when the timer
   fires.
@@ -144,6 +152,44 @@ theorem c12_partial_at_most_one (evs : List Ev) (hq : Quiet {} { nCb := 1 } evs)
   rw [c12_partial {} 1 evs hq (Or.inr (Nat.le_refl 1))]
   exact Appr.c12_at_most_one_outcome 1 evs w
 
+/-- PARTIAL, code as written, the historical member "two or more callbacks, writes pending one at a time": for every
+    member `c` of the family (tally map re-created or not, result of Stop() ignored or not), ANY number of callbacks and
+    every schedule in which a write arrives only while no other write is armed and no verdict is stale (`ApprS.Single`):
+    the outcomes, the presentations, the pending and armed sets are those of the repaired member — only the tally maps
+    differ (the map the code throws away holds nothing that is still needed). Excluded region: two writes pending
+    together (refuted: `c12_applied_iff_unanimous_refuted`), stale verdicts (refuted: `…_refuted_timeout`). -/
+theorem c12_partial_one_write_at_a_time (c : Cfg) (n : Nat) (evs : List Ev) (hs : ApprS.Single c { nCb := n } evs) :
+    (run c n evs).outcomes = (run Cfg.clean n evs).outcomes ∧
+    (run c n evs).presented = (run Cfg.clean n evs).presented ∧
+    (run c n evs).pending = (run Cfg.clean n evs).pending ∧ (run c n evs).armed = (run Cfg.clean n evs).armed := by
+  have h := ApprS.rel_run c evs _ _ (ApprS.rel_init n) hs
+  exact ⟨h.outcomes, h.presented, h.pending, h.armed⟩
+
+/-- non-vacuity: the code as written, three callbacks, three writes one after the other — approved by all three,
+    denied by the second callback, timed out after two approvals; the tally map of the code as written ends different
+    from the repaired member's, the outcomes are the same -/
+example :
+    let evs : List Ev := [.arrive 1, .lookup 10 1, .commit 10 true, .lookup 11 1, .commit 11 true, .lookup 12 1,
+      .commit 12 true, .arrive 2, .lookup 13 2, .commit 13 true, .lookup 14 2, .commit 14 false,
+      .arrive 3, .lookup 15 3, .commit 15 true, .lookup 16 3, .commit 16 true, .timeoutTake 3, .timeoutSend 3,
+      .arrive 4, .lookup 17 4, .commit 17 true]
+    ApprS.Single {} { nCb := 3 } evs ∧
+    (run {} 3 evs).outcomes = [(1, .applied), (2, .error), (3, .error)] ∧
+    (run {} 3 evs).tally = some [(4, 1)] ∧ (run Cfg.clean 3 evs).tally = some [(3, 2), (4, 1)] := by
+  refine ⟨?_, by decide, by decide, by decide⟩
+  simp [ApprS.Single, NoStale, step, finish, bump]
+
+/-- hence, code as written, any number of callbacks, one write at a time: no write has two outcomes -/
+theorem c12_partial_one_write_at_a_time_at_most_one (n : Nat) (evs : List Ev) (hs : ApprS.Single {} { nCb := n } evs)
+    (w : Nat) : ((run {} n evs).outcomes.filter (·.1 = w)).length ≤ 1 := by
+  rw [(c12_partial_one_write_at_a_time {} n evs hs).1]
+  exact Appr.c12_at_most_one_outcome n evs w
+
+example : ApprS.Single {} { nCb := 2 } [.arrive 1, .lookup 10 1, .commit 10 true, .lookup 11 1, .commit 11 true] ∧
+    (run {} 2 [.arrive 1, .lookup 10 1, .commit 10 true, .lookup 11 1, .commit 11 true]).outcomes = [(1, .applied)] := by
+  refine ⟨?_, by decide⟩
+  simp [ApprS.Single, NoStale, step, finish, bump]
+
 /-- non-vacuity of `Quiet`: a sequential history of the code as written with a denial, an approval and a timeout -/
 example : Quiet {} { nCb := 1 } [.arrive 1, .arrive 2, .arrive 3, .lookup 10 2, .commit 10 false, .lookup 11 1,
     .commit 11 true, .timeoutTake 3, .timeoutSend 3] := by
@@ -204,6 +250,51 @@ theorem c12_reconnect_repaired :
       .arrive 5, .lookup 11 (1, 5), .commit 11 true]).outcomes = [] ∧
     (ApprE.run {} 1 [.arrive 5, .drop, .arrive 5, .lookup 10 (0, 5), .commit 10 true,
       .timeoutTake (1, 5), .timeoutSend (1, 5)]).outcomes = [((1, 5), .error)] := by decide
+
+/-- EQUIVALENCE of the model that keys its maps as the code does — by the message COUNTER, reused by a peer that
+    reconnects — with the instance-keyed model all the all-schedule theorems are about (fully repaired member of
+    both): for every number of callbacks, every injective naming `enc` of the write instances (epoch, counter) and
+    EVERY event list — arrivals, verdict lookups and commits, the two halves of timeouts, removals of the connection,
+    in any order, verdicts and timeouts of earlier connections arriving at any time — the outcomes are the same,
+    instance by instance and in the same order. (`trAll` renames the events; an arrival with counter `c` is the arrival
+    of instance (number of drops so far, c).) -/
+theorem c12_counter_keyed_equals_instance_keyed (enc : ApprE.Inst → Nat) (hinj : Function.Injective enc) (n : Nat)
+    (evs : List ApprE.Ev) :
+    (run Cfg.clean n (ApprEq.trAll enc { nCb := n } evs)).outcomes =
+      (ApprE.run {} n evs).outcomes.map fun x => (enc x.1, x.2) :=
+  ApprEq.outcomes_eq hinj n evs
+
+/-- non-vacuity: an injective naming exists, and on a history with a reused counter, a verdict of the earlier
+    connection that commits after the reuse, two callbacks and a timeout both sides produce the same two outcomes -/
+example : Function.Injective ApprEq.pairEnc ∧
+    (let evs : List ApprE.Ev := [.arrive 5, .lookup 10 (0, 5), .drop, .arrive 5, .commit 10 true, .lookup 11 (1, 5),
+        .commit 11 true, .arrive 6, .lookup 12 (1, 5), .commit 12 true, .timeoutTake (1, 6), .timeoutSend (1, 6)]
+     (ApprE.run {} 2 evs).outcomes = [((1, 5), .applied), ((1, 6), .error)] ∧
+     (run Cfg.clean 2 (ApprEq.trAll ApprEq.pairEnc { nCb := 2 } evs)).outcomes =
+       [(ApprEq.pairEnc (1, 5), .applied), (ApprEq.pairEnc (1, 6), .error)]) :=
+  ⟨ApprEq.pairEnc_injective, by decide⟩
+
+/-- hence "no write ever has two outcomes" for the counter-keyed model itself: under every event list — counters
+    reused across any number of connections — no write INSTANCE has two outcomes. -/
+theorem c12_at_most_one_outcome_counter_keyed (n : Nat) (evs : List ApprE.Ev) (i : ApprE.Inst) :
+    ((ApprE.run {} n evs).outcomes.filter (·.1 = i)).length ≤ 1 := by
+  have h := c12_at_most_one_outcome n (ApprEq.trAll ApprEq.pairEnc { nCb := n } evs) (ApprEq.pairEnc i)
+  rw [c12_counter_keyed_equals_instance_keyed _ ApprEq.pairEnc_injective, List.filter_map, List.length_map] at h
+  have hf : (ApprE.run {} n evs).outcomes.filter ((fun x : Nat × Out => decide (x.1 = ApprEq.pairEnc i)) ∘
+      fun x => (ApprEq.pairEnc x.1, x.2)) = (ApprE.run {} n evs).outcomes.filter (·.1 = i) := by
+    apply List.filter_congr
+    intro x _
+    simp only [Function.comp]
+    by_cases hx : x.1 = i
+    · simp [hx]
+    · have : ApprEq.pairEnc x.1 ≠ ApprEq.pairEnc i := fun h' => hx (ApprEq.pairEnc_injective h')
+      simp [hx, this]
+  rw [hf] at h
+  exact h
+
+example : ((ApprE.run {} 1 [.arrive 5, .drop, .arrive 5, .lookup 10 (0, 5), .commit 10 true,
+    .timeoutTake (1, 5), .timeoutSend (1, 5), .lookup 11 (1, 5), .commit 11 true]).outcomes.filter
+      (·.1 = (1, 5))).length = 1 := by decide
 
 /-! ### refinement: applied ⇔ unanimous in time, independence (repaired member) -/
 
